@@ -565,14 +565,16 @@ func (mw *TinkEncryptionPartStoreMiddleware) GetPart(ctx context.Context, tx dat
 		}
 
 		// Create a decrypting reader for the remaining data
-		decryptReader, err := dekStreamingAEAD.NewDecryptingReader(rc, partId.Bytes())
+		counted := &countingReader{r: rc}
+		decryptReader, err := dekStreamingAEAD.NewDecryptingReader(counted, partId.Bytes())
 		if err != nil {
 			closeUnderlying()
-			return nil, err
+			return nil, noCleanEOF(err)
 		}
 
 		// Return a composite reader that wraps the decrypt reader with the underlying closer
-		return &compositeReadCloser{decryptReader, closerFunc(closeUnderlying)}, nil
+		guarded := &truncationGuard{r: decryptReader, ct: counted, css: int64(segmentSize)}
+		return &compositeReadCloser{guarded, closerFunc(closeUnderlying)}, nil
 	})
 
 	return ioutils.NewReadCloserWithCloseHook(lazyReader, closeUnderlying), nil
@@ -586,7 +588,7 @@ func (mw *TinkEncryptionPartStoreMiddleware) readPartHeaderAndDEK(rc io.Reader, 
 	// Read the header length (4 bytes big-endian)
 	lengthBytes := make([]byte, 4)
 	if _, err := io.ReadFull(rc, lengthBytes); err != nil {
-		return nil, 0, 0, err
+		return nil, 0, 0, noCleanEOF(err)
 	}
 
 	headerLen := binary.BigEndian.Uint32(lengthBytes)
@@ -594,7 +596,7 @@ func (mw *TinkEncryptionPartStoreMiddleware) readPartHeaderAndDEK(rc io.Reader, 
 	// Read and parse the header
 	headerBytes := make([]byte, headerLen)
 	if _, err := io.ReadFull(rc, headerBytes); err != nil {
-		return nil, 0, 0, err
+		return nil, 0, 0, noCleanEOF(err)
 	}
 
 	var header PartHeader
@@ -633,6 +635,50 @@ func (mw *TinkEncryptionPartStoreMiddleware) readPartHeaderAndDEK(rc io.Reader, 
 	}
 
 	return finalDEK, segmentSize, int64(4 + headerLen), nil
+}
+
+// noCleanEOF turns a bare io.EOF met while parsing a part's envelope into
+// io.ErrUnexpectedEOF: a stored part that ends inside its header is truncated,
+// not empty, and must not read as a clean end of stream.
+func noCleanEOF(err error) error {
+	if err == io.EOF {
+		return io.ErrUnexpectedEOF
+	}
+	return err
+}
+
+// countingReader counts the ciphertext bytes handed to the tink reader.
+type countingReader struct {
+	r io.Reader
+	n int64
+}
+
+func (c *countingReader) Read(p []byte) (int, error) {
+	n, err := c.r.Read(p)
+	c.n += int64(n)
+	return n, err
+}
+
+// truncationGuard refuses a clean EOF from tink-go's sequential reader when the
+// ciphertext length cannot be that of a complete stream: shorter than stream
+// header plus one tag, or ending in a final slot shorter than a tag (tink-go
+// v1.7.0 reports io.EOF in both cases and silently drops the tail).
+type truncationGuard struct {
+	r   io.Reader
+	ct  *countingReader
+	css int64
+}
+
+func (g *truncationGuard) Read(p []byte) (int, error) {
+	n, err := g.r.Read(p)
+	if err == io.EOF {
+		total := g.ct.n
+		rem := total % g.css
+		if total < int64(1+tinkKeySize+tinkNoncePrefixSize)+tinkTagSize || (rem != 0 && rem < tinkTagSize) {
+			return n, io.ErrUnexpectedEOF
+		}
+	}
+	return n, err
 }
 
 // compositeReadSeekCloser combines a ReadSeeker with a Closer.
